@@ -365,6 +365,21 @@ fn structured_cases(ctx: &Ctx, scratch: &std::path::Path) -> Vec<Case> {
         add(&format!("ladder/paren-after-quote-char-literal/{}", d), format!(".dq '\"'+{}\n", ladder("(", ")", d, "1")));
         add(&format!("ladder/paren-after-slash-char-literals/{}", d), format!(".dq '/'+'/'+{}\n", ladder("(", ")", d, "1")));
         add(&format!("ladder/minus-after-string-with-semicolon/{}", d), format!(".db \"a;b\", {}1\n", "-".repeat(d)));
+        // a ladder behind literals that end in, or hold, what other languages read as an escape or a quote
+        for (pn, prefix) in [
+            ("string-ending-in-backslash", ".db \"C:\\\", "),
+            ("message-with-backslash-quote", ".message \"say \\\" "),
+            ("string-holding-backslash-quote-and-another-string", ".db \"a\\\", \"b\", "),
+            ("char-literal-backslash", ".db '\\', "),
+            ("char-literal-quote-after-backslash-string", ".db \"\\\", '\"', "),
+            ("string-with-doubled-quote", ".db \"a\"\"b\", "),
+            ("string-ending-in-two-backslashes", ".db \"C:\\\\\", "),
+            ("string-holding-comment-openers", ".db \"; // /*\", "),
+            ("unterminated-char-literal", ".db ', "),
+            ("dw-string-ending-in-backslash", ".dw \"x\\\", "),
+        ] {
+            add(&format!("ladder/paren-after-{}/{}", pn, d), format!("{}{}\n", prefix, ladder("(", ")", d, "1")));
+        }
         add(&format!("ladder/paren-after-apostrophe-in-string/{}", d), format!(".db \"it's\", {}\n", ladder("(", ")", d, "1")));
         add(&format!("ladder/paren-in-unselected-branch-after-char-literal/{}", d), format!(".if 0\nldi r16, ';'+{}\n.endif\n", ladder("(", ")", d, "1")));
     }
